@@ -571,7 +571,7 @@ func (c *Client) completeCPP(
 	partIdx channel.Index,
 ) (*Channel, error) {
 	propBase := prop.Base()
-	params := channel.NewParamsUnsafe(
+	params, err := channel.NewParams(
 		propBase.ChallengeDuration,
 		c.mpcppParts(prop, acc),
 		propBase.App,
@@ -580,13 +580,15 @@ func (c *Client) completeCPP(
 		prop.Type() == wire.VirtualChannelProposal,
 		propBase.Aux,
 	)
+	if err != nil {
+		return nil, errors.WithMessage(err, "invalid channel parameters")
+	}
 
 	if c.channels.Has(params.ID()) {
 		return nil, errors.New("channel already exists")
 	}
 
 	accounts := make(map[wallet.BackendID]wallet.Account)
-	var err error
 	for i, wall := range c.wallet {
 		accounts[i], err = wall.Unlock(params.Parts[partIdx][i])
 		if err != nil {
